@@ -220,3 +220,43 @@ pub fn shrink_tree(spec: &TreeSpec, protect: &[String]) -> Vec<TreeSpec> {
     }
     out
 }
+
+/// Tests whose value does not depend on what actions do to the tree
+/// (-name/-iname/-path/-type/-true/-false with ! -a -o and parentheses).
+pub fn gen_stable_tests(rng: &mut Rng) -> Vec<String> {
+    fn atom(rng: &mut Rng) -> Vec<String> {
+        match rng.weighted(&[30, 10, 15, 8, 4, 4]) {
+            0 => vec!["-name".into(), rng.pick(&["*", "*a*", "*b*", "?*", "[a-f]*", "*.txt", "*1*", "* *", "a*", "*x"]).to_string()],
+            1 => vec!["-iname".into(), rng.pick(&["*A*", "*B*", "C*"]).to_string()],
+            2 => vec!["-type".into(), rng.pick(&["f", "d", "l", "f", "d"]).to_string()],
+            3 => vec!["-path".into(), rng.pick(&["*/a*", "*t/*", "*/*/*", "*b*"]).to_string()],
+            4 => vec!["-true".into()],
+            _ => vec!["-false".into()],
+        }
+    }
+    let mut out: Vec<String> = vec![];
+    match rng.weighted(&[35, 30, 15, 10, 10]) {
+        0 => {}
+        1 => out.extend(atom(rng)),
+        2 => {
+            out.push("!".into());
+            out.extend(atom(rng));
+        }
+        3 => {
+            out.push("(".into());
+            out.extend(atom(rng));
+            out.push("-o".into());
+            out.extend(atom(rng));
+            out.push(")".into());
+        }
+        _ => {
+            out.extend(atom(rng));
+            if rng.chance(1, 2) {
+                out.push("-a".into());
+            }
+            out.push("!".into());
+            out.extend(atom(rng));
+        }
+    }
+    out
+}
